@@ -280,6 +280,8 @@ class FaultPlan:
             f["done"] = True
             if f["kind"] == "exc" and not (task.name == "main" or task.tags.get("in_func")):
                 continue        # an exception cannot be raised inside pool machinery: not fired
+            if f["kind"] == "exc" and site.startswith("L") and not task.tags.get("line_nested"):
+                continue        # line of the outermost worker frame (its try:/except: lines): not fired
             self.fired.append(dict(kind=f["kind"], task=task.name, site=site, k=idx, at="yield",
                                    t=task.kernel.now))
             return self._act(f)
@@ -411,6 +413,8 @@ def run_bane(filename, cfg, sched, ch, faults=None, fill="payload", ncpu=16, cor
             act = plan.line_fn_fault(task, frame)
             if act is not None:
                 return act
+            task.tags["line_nested"] = (frame.f_back is not None and
+                                        frame.f_back.f_code.co_filename == frame.f_code.co_filename)
             key = (frame.f_code.co_name, frame.f_lineno)
             if key not in task.seen_lines:
                 task.seen_lines.add(key)
